@@ -389,7 +389,7 @@ impl SymbolicByteCode {
       Self::Channel => 1,
       Self::BufferedChannel => 0,
       Self::Receive => 0,
-      Self::Send => 0,
+      Self::Send => -1,
       Self::Interpolate(cnt) => -(*cnt as i32) + 1,
       Self::IterNext(_) => 0,
       Self::IterCurrent(_) => 0,
